@@ -378,8 +378,11 @@ class SelectedMailbox:
         session_flags = self.session_flags
         permanent_flag_set = self.permanent_flags & flag_set
         session_flag_set = session_flags & flag_set
+        flags_key_map = self._messages._flags_key_map
         for _, msg in self._messages.get_all(seq_set):
-            msg_flags = msg.permanent_flags
+            # compare with the flags this session has synchronized, the cached
+            # message may already show an update from another session
+            _, msg_flags = flags_key_map[msg.uid]
             msg_sflags = session_flags.get(msg.uid)
             updated_flags = flag_op.apply(msg_flags, permanent_flag_set)
             updated_sflags = flag_op.apply(msg_sflags, session_flag_set)
